@@ -24,6 +24,10 @@ fn main() {
     let mut dispatch_n = dispatch.replace("run_generated", "run_generated_norecovery");
     let mut dispatch_t = String::from("pub fn run_generated_tree(k: usize, recover: bool, lexer: &dyn ::lrpar::NonStreamingLexer<::lrlex::DefaultLexerTypes<u32>>) -> (Option<crate::reflr::Tree>, Vec<::lrpar::LexParseError<u32, ::lrlex::DefaultLexerTypes<u32>>>) {\n    match (k, recover) {\n");
     for (k, b) in blocks.iter().enumerate() {
+        // `%unit Rk` (harness directive, not Yacc): rule Rk has type `()`; its actions record
+        // through `rec_unit`, and a parent finds the record of its unit child with `unit($n)`
+        let unit_rules: Vec<String> = b.lines().filter_map(|l| l.strip_prefix("%unit ")).map(|s| s.trim().to_string()).collect();
+        let b = &b.lines().filter(|l| !l.starts_with("%unit ")).collect::<Vec<_>>().join("\n");
         let (head, body) = b.split_once("%%\n").unwrap();
         let mut y = String::from("%grmtools{yacckind: Grmtools}\n");
         y.push_str(head);
@@ -35,7 +39,8 @@ fn main() {
             }
             let (name, rest) = line.split_once(':').unwrap();
             let rest = rest.trim().strip_suffix(';').unwrap();
-            write!(y, "{} -> usize:", name.trim()).unwrap();
+            let is_unit = unit_rules.iter().any(|u| u == name.trim());
+            write!(y, "{} -> {}:", name.trim(), if is_unit { "()" } else { "usize" }).unwrap();
             for (ai, alt) in rest.split('|').enumerate() {
                 if ai > 0 {
                     y.push_str("\n  |");
@@ -45,11 +50,14 @@ fn main() {
                 for (si, s) in syms.iter().enumerate() {
                     if s.starts_with('\'') {
                         write!(args, "crate::lex(${}), ", si + 1).unwrap();
+                    } else if unit_rules.iter().any(|u| u == s) {
+                        write!(args, "crate::unit(${}), ", si + 1).unwrap();
                     } else {
                         write!(args, "crate::val(${}), ", si + 1).unwrap();
                     }
                 }
-                write!(y, " {} {{ crate::rec(\"{}\", {}, $span, tag, vec![{}]) }}", syms.join(" "), name.trim(), ai, args).unwrap();
+                assert!(syms.iter().filter(|s| unit_rules.iter().any(|u| u == *s)).count() <= 1, "at most one unit-typed symbol per production");
+                write!(y, " {} {{ crate::{}(\"{}\", {}, $span, tag, vec![{}]) }}", syms.join(" "), if is_unit { "rec_unit" } else { "rec" }, name.trim(), ai, args).unwrap();
             }
             y.push_str("\n  ;\n");
         }
